@@ -54,9 +54,8 @@ var c03reviewedK1 = map[string]c03argued{
 	"(*idr.navigator).NodeType: panic when p0.cur.Type != 3 <- (callers in package github.com/antchfx/xpath)":                                         {1, "Node.Type is only ever assigned one of the four NodeType constants: nodes are created by CreateNode/CreateXMLNode/CreateJSONNode whose callers in the readers pass DocumentNode/ElementNode/TextNode/AttributeNode literally, and reset() stores 0 (= DocumentNode)"},
 }
 
-var c03reviewedK2 = map[string]c03argued{
-	"extensions/omniv21/transform.getFuncArgType calls reflect.Type.In": {1, "the index is clamped: `if argIndex >= NumIn() { argIndex = NumIn()-1 }`, its only caller prepArgValues passes fnArgIndex >= 1, and validateCustomFunc rejects functions with NumIn() < 1 (validated at load), so 0 <= index < NumIn(); the index is a phi of the parameter and NumIn()-1, which the relational prover does not follow"},
-}
+// (the clamped index of getFuncArgType's Type.In is now verified mechanically: phi decided per incoming edge)
+var c03reviewedK2 = map[string]c03argued{}
 
 var c03reviewedK3 = map[string]c03argued{
 	"(*" + c03csv2 + ".reader).Read asserts .(*csv.RecordDecl)":                  {1, c03argRecDecl},
